@@ -227,6 +227,42 @@ impl PPRF for GGM {
   }
 }
 
+// Inspection hooks for external verification machinery. Add-only, compiled
+// only with the `verif-hooks` feature; they expose private key material
+// read-only and change no behaviour.
+#[cfg(feature = "verif-hooks")]
+impl GGM {
+  /// Every retained tree node as (prefix bits, seed), in storage order.
+  pub fn verif_retained_nodes(&self) -> Vec<(Vec<bool>, Vec<u8>)> {
+    self
+      .key
+      .prefixes
+      .iter()
+      .map(|(p, s)| (p.bits.iter().map(|b| *b).collect(), s.clone()))
+      .collect()
+  }
+
+  /// The recorded punctured inputs as bit strings, in storage order.
+  pub fn verif_punctured(&self) -> Vec<Vec<bool>> {
+    self
+      .key
+      .punctured
+      .iter()
+      .map(|p| p.bits.iter().map(|b| *b).collect())
+      .collect()
+  }
+
+  /// The keys of the two PRGs (left, right).
+  pub fn verif_prg_keys(&self) -> Vec<[u8; 32]> {
+    self.key.prgs.iter().map(|g| g.key).collect()
+  }
+
+  /// The configured input length in bytes.
+  pub fn verif_inp_len(&self) -> usize {
+    self.inp_len
+  }
+}
+
 fn sample_secret() -> Vec<u8> {
   let mut out = vec![0u8; 32];
   OsRng.fill(out.as_mut_slice());
